@@ -8,6 +8,7 @@ import (
 	hessian "github.com/vogo/gohessian"
 
 	"verif/zoo"
+	"verif/zoo/alt"
 )
 
 // C16 — extraction terminates; maps are closed and mutually consistent.
@@ -24,8 +25,27 @@ func (c16) ProcOpts() Proc { return Proc{RlimitAS: 4 << 30, MaxStack: 64 << 20} 
 
 var c16witness = []string{"zero", "ptr-zero", "empty", "one", "full", "cyclic", "nil-elems"}
 
+// ClashNode: a self-referential type that also holds a type with the SAME SHORT NAME as another
+// type from another package (maps are keyed by bare type name, so only termination is judged here)
+type ClashNode struct {
+	P    *alt.Inner
+	Q    *zoo.Inner
+	Next *ClashNode
+	Kids []*ClashNode
+}
+
+// Inner clashes by short name with zoo.Inner and alt.Inner and refers to itself
+type Inner struct {
+	Z    *zoo.Inner
+	A    *alt.Inner
+	Next *Inner
+}
+
+var c16termOnly = []interface{}{ClashNode{}, &ClashNode{}, Inner{}, &Inner{Next: &Inner{}}, &ClashNode{P: &alt.Inner{}, Q: &zoo.Inner{}, Next: &ClashNode{}}}
+
 func (c16) Cases(tier string, seed int64, kf *KnownFindings) []Case {
 	var cs []Case
+	cs = append(cs, Case{Kind: "term", Count: len(c16termOnly), Sub: -1})
 	nu := 6
 	if tier == "thorough" {
 		nu = 300
@@ -156,6 +176,9 @@ func makeEmptyContainers(v reflect.Value) {
 
 func (c16) Run(c Case, env *Env) Result {
 	var res Result
+	if c.Kind == "term" {
+		return c16term(c, env)
+	}
 	e, _ := zoo.Lookup(c.Type)
 	structs, slices := map[reflect.Type]bool{}, map[reflect.Type]bool{}
 	reachable(e.Type, structs, slices, map[reflect.Type]bool{})
@@ -368,4 +391,31 @@ func keysOf(m map[string]reflect.Type) []string {
 	}
 	sort.Strings(k)
 	return k
+}
+
+// c16term: termination only — every extraction function must RETURN for these types (a
+// non-terminating walk overflows the 64 MiB stack and kills the worker, which the parent reports).
+func c16term(c Case, env *Env) Result {
+	var res Result
+	lo, hi := subRange(c)
+	for j := lo; j < hi && j < len(c16termOnly); j++ {
+		env.J(c.Idx, j)
+		res.Evals++
+		res.NT = append(res.NT, Hash64(fmt.Sprintf("term|%d", j)))
+		cc := c
+		cc.Sub = j
+		v := c16termOnly[j]
+		pi, _ := Guard(func() {
+			hessian.ExtractTypeNameMap(v)
+			hessian.TypeMapFrom(v)
+			hessian.NameMapFrom(v)
+			hessian.TypeMapOf(reflect.TypeOf(v))
+		})
+		if pi != nil {
+			env.Viol(&res, Violation{Class: "panic", Features: []string{"termination-only", "short-name-clash"}, Detail: fmt.Sprintf("%T: %s", v, pi.Msg), Case: cc})
+		}
+		res.Count("extractions_returned", 4)
+	}
+	res.Sample(map[string]interface{}{"kind": "termination on self-referential types with clashing short names", "types": "ClashNode{*alt.Inner,*zoo.Inner,*ClashNode}, work.Inner{*zoo.Inner,*alt.Inner,*Inner}"})
+	return res
 }
